@@ -1787,7 +1787,7 @@ func runHTLC(run *ev.Run, c int, mode string) {
 	}
 	// one asset denom with genesis balances (recorded as genesis current supply by the workload's genesis)
 	bal = bal.Add(sdk.NewCoin("htltbnb", toInt(htP10(15))))
-	r := rig.New(rig.Options{Seed: fmt.Sprintf("htlc-%s-%d-%d", mode, run.Seed, c), NumAccounts: 8, Balances: bal, InflationOff: true, GenesisMutator: w.Genesis, InitialHeight: boundaryHeight(c)})
+	r := rig.New(rig.Options{Seed: fmt.Sprintf("htlc-%s-%d-%d", mode, run.Seed, c), NumAccounts: 8, Balances: bal, InflationOff: true, GenesisMutator: w.Genesis, InitialHeight: boundaryHeight(c), SubSecond: c%2 == 1})
 	d := &htDirector{run: run, r: r, mode: mode, w: w, escrow: htlcEscrow(), cache: map[string]*htRec{},
 		model: map[string]*htContract{}, byExpiry: map[int64][]string{}, escrowOwn: map[string]*big.Int{}, c3off: map[string]*big.Int{},
 		win: map[string]*htWin{}, limitArmed: map[string]bool{}, doneIn: map[string]*big.Int{}, doneOut: map[string]*big.Int{},
